@@ -14,7 +14,14 @@
       [21, TK, TV, nil?, [[k,v],...]]  map
       [22, T, []] / [22, T, [v]]  nil / non-nil pointer
       [20, w, []] / [20, w, [v]]  nil / non-nil interface-typed slot (w = which interface type)
-      [25, [v,...]]               struct *)
+      [25, [v,...]]               struct
+
+    SHARING: a slice, map or pointer node may carry one more trailing element, an
+    integer id > 0: the Go side builds the node once per id and uses the SAME
+    slice header / map / pointer at every occurrence of that id (the occurrences
+    carry the same text).  The text is therefore the tree UNFOLDING of the Go
+    value (a DAG); the decoder ignores the ids — size.Of is a tree sum over the
+    unfolding (Properties/C20.v, theorems C20_graph_...). *)
 From Coq Require Import ZArith List Bool String.
 From Low Require Import Lib.Val Model.Size Spec.SizeSpec.
 Import ListNotations.
@@ -46,7 +53,7 @@ Fixpoint dec (v : val) : option value :=
         end
       else if k =? 23 then
         match rest with
-        | [_; VZ nf; VL elems] =>
+        | [_; VZ nf; VL elems] | [_; VZ nf; VL elems; VZ _] =>
             match opt_all (map dec elems) with
             | Some l => if nf =? 0 then Some (VSlice (Some l))
                         else match l with [] => Some (VSlice None) | _ => None end
@@ -62,7 +69,7 @@ Fixpoint dec (v : val) : option value :=
         end
       else if k =? 21 then
         match rest with
-        | [_; _; VZ nf; VL pairs] =>
+        | [_; _; VZ nf; VL pairs] | [_; _; VZ nf; VL pairs; VZ _] =>
             match opt_all (map (fun p => match p with
                                          | VL [a; b] => match dec a, dec b with
                                                         | Some a, Some b => Some (a, b)
@@ -78,7 +85,7 @@ Fixpoint dec (v : val) : option value :=
         end
       else if k =? 22 then
         match rest with
-        | [_; VL o] => match dec_opt dec o with Some o => Some (VPtr o) | None => None end
+        | [_; VL o] | [_; VL o; VZ _] => match dec_opt dec o with Some o => Some (VPtr o) | None => None end
         | _ => None
         end
       else if k =? 20 then
